@@ -168,6 +168,13 @@ namespace TrRouting
         close(fd);
         return -EBADMSG;
       }
+      catch (const std::exception& e)
+      {
+        // malformed uuid text...
+        spdlog::error("-- Error reading node cache file -- {}: {}", nodeCacheFileNamePath, e.what());
+        close(fd);
+        return -EBADMSG;
+      }
       close(fd);
     }
 
